@@ -22,8 +22,9 @@ type c15Case struct {
 	Branch *model.Branch  `json:"branch,omitempty"`
 	Exts   []string       `json:"exts,omitempty"`
 	Strict bool           `json:"strict,omitempty"`
-	Drop   []int          `json:"drop,omitempty"`  // pre-order indexes of node paths absent from the verified directory
-	Extra  []string       `json:"extra,omitempty"` // extra entries (relative to the target) present in it
+	Drop   []int          `json:"drop,omitempty"`   // pre-order indexes of node paths absent from the verified directory
+	Extra  []string       `json:"extra,omitempty"`  // extra entries (relative to the target) present in it
+	IOKind int            `json:"ioKind,omitempty"` // dynamic type of the reader both documents are read through (ops.Faults.IOKind: 0, 3, 4, 5, 7)
 }
 
 var c15Ops = []string{"text", "noiter", "json", "yaml", "toml", "dryrun", "walk", "mkdir", "verify", "massive-text", "massive-json", "massive-mkdir"}
@@ -65,6 +66,7 @@ func c15Run(c c15Case, sp model.Spelling) *ops.Result {
 	cs := ops.NewCase("output", "md")
 	cs.Doc = []byte(model.Spell(c.Forest, sp))
 	cs.Opts.Branch = c.Branch
+	cs.Faults.IOKind = c.IOKind
 	if strings.HasPrefix(c.Op, "massive-") {
 		cs.Opts.Massive = true
 	}
@@ -219,7 +221,7 @@ func c15Record(col *collector, c c15Case) {
 	for _, d := range dims {
 		cl = append(cl, "dim:"+d)
 	}
-	col.eval(nontrivial, hash64(model.Spell(c.Forest, c.Sp1), model.Spell(c.Forest, c.Sp2), c.Op, fmt.Sprint(c.Branch, c.Exts, c.Strict, c.Drop, c.Extra)), cl...)
+	col.eval(nontrivial, hash64(model.Spell(c.Forest, c.Sp1), model.Spell(c.Forest, c.Sp2), c.Op, fmt.Sprint(c.Branch, c.Exts, c.Strict, c.Drop, c.Extra, c.IOKind)), cl...)
 	col.sample(func() any {
 		return map[string]any{"doc1": model.Spell(c.Forest, c.Sp1), "doc2": model.Spell(c.Forest, c.Sp2), "op": c.Op}
 	})
@@ -315,6 +317,7 @@ func c15Gen() *rapid.Generator[c15Case] {
 			withLongName(t, f)
 		}
 		c := c15Case{Forest: f, Op: op}
+		c.IOKind = rapid.SampledFrom([]int{0, 0, 0, 3, 4, 5, 7}).Draw(t, "ioKind")
 		c.Sp1 = genSpelling(f.HeadingOK()).Draw(t, "sp1")
 		c.Sp2 = genSpelling(f.HeadingOK()).Draw(t, "sp2")
 		if !strings.HasPrefix(op, "massive") && len(f) >= 2 {
